@@ -1,5 +1,5 @@
 import BadgerModel.DirLock
--- import BadgerModel.Pipeline
+import BadgerModel.Pipeline
 import BadgerModel.Crypto
 import BadgerModel.Driver.Util
 /-! Drivers of the `sys` area: `lock` (C35), `pipeline` (C38), `crypto` (C23); see
@@ -129,6 +129,37 @@ def cryptoStep (line : String) : String :=
         | .ok r => if r.dataKeys == mkKeys nk then s!"ok {nk} same-keys" else s!"ok {r.dataKeys.length} changed-keys"
     | _, _, _, _ => "bad-op"
   | "session" :: _ => "ok"
+  | _ => "bad-op"
+
+/-! ## pipeline engine (stateless) -/
+
+def pipelineStep (line : String) : String :=
+  match words line with
+  | "sample" :: rest =>
+    let kv := kvArgsS rest
+    let x : Pipeline.Coarse := {
+      imm := argNatS kv "imm" 0, flushLen := argNatS kv "fc" 0, flushCap := argNatS kv "nm" 1,
+      l0 := argNatS kv "l0" 0, l0Stall := argNatS kv "stall" 2,
+      writeChLen := argNatS kv "wc" 0, writeChCap := argNatS kv "cap" 1000 }
+    if Pipeline.coarseOK x then "ok" else "violates-invariant"
+  | ["late-sender"] =>
+    -- one committed write (dirty memtable), a caller passes the blockWrites check, Close runs to
+    -- completion while the caller is parked, then the caller sends
+    let c : Pipeline.Cfg := { writeChCap := 1000, numMemtables := 1, l0Tables := 1, l0Stall := 2, numCompactors := 2 }
+    let pre : List Pipeline.Label := [.callBegin, .send, .dwRecv, .dwPush, .wrVlog, .wrRoomOk,
+      .wrToLSM false, .wrFinish, .wrRelease, .callBegin, .closeCall]
+    match Pipeline.run c Pipeline.State.init pre with
+    | none => "model-error"
+    | some s =>
+      let s1 := Pipeline.runHelper c 200 s
+      let closeS := if s1.cl = .returned then "returned" else "running"
+      match Pipeline.step c s1 .sendPanic with
+      | some s2 => s!"panic close={closeS} pending={Pipeline.pendingCalls s2}"
+      | none =>
+        match Pipeline.step c s1 .send with
+        | some s2 => s!"enqueued close={closeS} pending={Pipeline.pendingCalls s2}"
+        | none => s!"blocked close={closeS}"
+  | "stress" :: _ => "ok"
   | _ => "bad-op"
 
 end Badger.Driver
